@@ -23,7 +23,7 @@ import (
 func TestVerifC06(t *testing.T) {
 	vfMain(t, vfCheck{
 		ID: "C06", Level: "exploration",
-		Rule: "per unit: seeded logical packets of every type (requests, STATUS/HANDLE/DATA/NAME/ATTRS, INIT/VERSION, statvfs/posix-rename/hardlink/fsync, statvfs reply) with boundary-biased ids, offsets, strings (empty/long/non-UTF-8/NUL), payloads 0..70k, all 32 attribute-flag subsets with 0..5 extended pairs, 0..300 name entries; each is encoded by packet.go (through sendPacket), by filexfer and by the reference codec and decoded by each decoder. A class is (packet type, attr-flag subset, size bucket).",
+		Rule:        "per unit: seeded logical packets of every type (requests, STATUS/HANDLE/DATA/NAME/ATTRS, INIT/VERSION, statvfs/posix-rename/hardlink/fsync, statvfs reply) with boundary-biased ids, offsets, strings (empty/long/non-UTF-8/NUL), payloads 0..70k, all 32 attribute-flag subsets with 0..5 extended pairs, 0..300 name entries; each is encoded by packet.go (through sendPacket), by filexfer and by the reference codec and decoded by each decoder. A class is (packet type, attr-flag subset, size bucket).",
 		Assumptions: []string{"the reference codec (harness/common_ref.go, written from the draft and OpenSSH PROTOCOL) is the spec oracle"},
 		Units: func(tier vfTier, seed uint64) int {
 			if tier == vfThorough {
@@ -707,7 +707,6 @@ func c06Run(u *vfUnit) {
 	}
 	c06ClientDecode(u)
 }
-
 
 // c06ClientDecode: responses that packet.go only encodes are decoded by the real
 // client path; a scripted peer serves reference-encoded replies.
